@@ -41,6 +41,10 @@ def gen_sweep(rnd):
     nvars = rnd.choice([1, 1, 2, 2, 3])
     names = rnd.sample(VARS, nvars)
     rnd.shuffle(names)
+    fn_named = rnd.random() < 0.12
+    if fn_named:
+        # a sweep variable may be called like one of the expression functions: inside the expression the variable is meant
+        names = rnd.sample(["max", "min", "abs", "round", "int", "str", "float", "bool"], nvars)
     mode = rnd.choice(["combinatorial", "by_position"])
     broadcast = rnd.random() < 0.4
     variables, decls, all_int = {}, [], True
@@ -89,7 +93,7 @@ def gen_sweep(rnd):
     exprs_yaml, exprs_model = {}, []
     for (pname, dflt) in el["params"]:
         if rnd.random() < 0.8:
-            if all_int and rnd.random() < 0.5:
+            if all_int and not fn_named and rnd.random() < 0.5:
                 a, b = rnd.choice(names), rnd.choice(names)
                 k = rnd.randrange(1, 4)
                 form = rnd.choice(["lin", "max", "mixed"])
